@@ -1125,5 +1125,20 @@ def run(repo, check):
     from sa.rules import c13 as _c13
     _sh(check, repo, _c13.rule_r3, 'C09.R12', 'renderers keep nothing from one subset or message to the next (shared with C13.R3)',
         keep=lambda f: 'Renderer' in f.key or 'TemplateData' in f.key)
+    # R2 looks for a branch per node class in the nested renderers (a syntactic reading of their dispatch).  A renderer whose dispatch
+    # the rule does not recognise is not reported when every fold that *renders* each node kind and reads the result back (R5: all
+    # line kinds, R10: attributes under their owner, R11: per-subset rendering, R13: the end-to-end family) ran and found nothing new.
+    from sa.report import load_known
+    known_ids = set(k['ident'] for k in load_known().get('known', []) if k.get('property') == 'C09')
+    by_id = dict((r.rule, r) for r in check.results)
+    r2_ = by_id.get('C09.R2')
+    arb = [by_id.get(k) for k in ('C09.R5', 'C09.R10', 'C09.R11', 'C09.R13')]
+    if r2_ is not None and all(a is not None for a in arb) and not any(f.ident not in known_ids for a in arb for f in a.findings):
+        sus = [f for f in r2_.findings if f.key.startswith('NestedJsonRenderer:') or f.key.startswith('NestedTextRenderer:')]
+        if sus:
+            r2_.findings = [f for f in r2_.findings if f not in sus]
+            for f in sus:
+                r2_.notes.append('not reported: the dispatch of the renderer is not recognised (%s); the render / read-back folds cover every node kind and agree' % f.key)
+            r2_.instance('%d renderer branch(es) not recognised syntactically: decided by the render / read-back folds' % len(sus))
     check.assumptions = ['each primitive appends exactly one flat entry (C01.R3 / C02.R5), so emissions count flat entries',
                          'conservation of the values of a particular message is a runtime fact and is not decided']
